@@ -43,6 +43,14 @@ def to_line_mapping(code: CodeType) -> LineMapping:
     collapsed_items = collapse_items(expanded_items, USE_LINETABLE)
     max_offset = len(code.co_code)
     mapping = items_to_mapping(collapsed_items, max_offset, USE_LINETABLE)
+    # The mapping of a line table only keeps the line of every offset, not how the
+    # table is cut into entries. The entries are recreated like the compiler emits
+    # them; a table which is cut another way (hand written, or compiled from a tree
+    # with negative line numbers) would silently come back different
+    if USE_LINETABLE and from_line_mapping(mapping) != code.co_linetable:  # type: ignore
+        raise NotImplementedError(
+            "Line table is not cut into entries the way the compiler emits them"
+        )
     return mapping
 
 
